@@ -311,7 +311,47 @@ func checkC08(c *Ctx) {
 			}
 		}
 	})
+	c08Reuse(c)
 	c.Floor(500)
+}
+
+// c08Reuse: one renderer value used for a sequence of outlines of very different sizes; each result must be what a fresh
+// renderer of the same configuration gives (a renderer may not keep anything derived from an earlier model).
+func c08Reuse(c *Ctx) {
+	n := c.Pick(12, 120)
+	for i := 0; i < n; i++ {
+		r := c.Rng("reuse", i)
+		rk := msRenderers[i%2]
+		cells := r.IR(8, 64)
+		shared := rk.mk(cells)
+		for step := 0; step < 4; step++ {
+			scale := pickOne(r, []float64{0.05, 1, 10, 100, 600})
+			var s sdf.SDF2
+			var desc string
+			if r.Bool() {
+				s, _ = sdf.Circle2D(scale * r.R(0.5, 1))
+				desc = fmt.Sprintf("circle of size %g", scale)
+			} else {
+				s = sdf.Box2D(v2.Vec{X: scale * r.R(0.5, 3), Y: scale * r.R(0.5, 3)}, scale*r.R(0, 0.2))
+				desc = fmt.Sprintf("box of size %g", scale)
+			}
+			s = sdf.Transform2D(s, sdf.Translate2d(v2.Vec{X: r.R(-2, 2) * scale, Y: r.R(-2, 2) * scale}))
+			a, b := collectLines(shared, s), collectLines(rk.mk(cells), s)
+			c.Eval(2)
+			same := len(a) == len(b)
+			for k := 0; same && k < len(a); k++ {
+				same = *a[k] == *b[k]
+			}
+			if !same {
+				c.Violate("", fmt.Sprintf("ms-history-dependent %s cells=%d step %d (%s): a renderer that rendered other outlines before gives %d segments, a fresh one %d (or different coordinates)", rk.name, cells, step, desc, len(a), len(b)),
+					c08Case{Renderer: rk.name, Family: "reuse", Pattern: i, Cells: cells, Shape: desc})
+				break
+			}
+			if step > 0 {
+				c.Distinct(fmt.Sprintf("%s/reuse/%d/%d", rk.name, i, step))
+			}
+		}
+	}
 }
 
 func boxHalf(desc string) v2.Vec {
